@@ -40,9 +40,49 @@ type c18P struct {
 	// PreKick > 0: peer #PreKick (1-based) is disconnected immediately before the judged call, while the tracker
 	// still lists it.
 	PreKick int `json:"pre_kick,omitempty"`
+	// Restart: the Exchange client ("client"), the real ExchangeServers ("servers") or both ("both") are stopped and
+	// started again (same objects) before the judged call
+	Restart string `json:"restart,omitempty"`
 }
 
 const c18Total = 200
+
+// the real servers of the world being built (cases run one at a time per process)
+var c18Servers []*p2p.ExchangeServer[H]
+
+// c18Restart stops and starts again what p.Restart names.
+func c18Restart(c *mon.Case, p c18P, ex *p2p.Exchange[H]) bool {
+	ctx, cancel := context.WithTimeout(context.Background(), time.Minute)
+	defer cancel()
+	if p.Restart == "servers" || p.Restart == "both" {
+		for _, srv := range c18Servers {
+			if err := srv.Stop(ctx); err != nil {
+				c.Violation("server-stop-fails", fmt.Sprint(err), nil)
+				return false
+			}
+			if err := srv.Start(ctx); err != nil {
+				c.Violation("server-restart-fails", fmt.Sprint(err), nil)
+				return false
+			}
+		}
+		c.Count("server_restarts", len(c18Servers))
+	}
+	if p.Restart == "client" || p.Restart == "both" {
+		if err := ex.Stop(ctx); err != nil {
+			c.Violation("client-stop-fails", fmt.Sprint(err), nil)
+			return false
+		}
+		if err := ex.Start(ctx); err != nil {
+			c.Violation("client-restart-fails", fmt.Sprint(err), nil)
+			return false
+		}
+		c.Count("client_restarts", 1)
+	}
+	synctest.Wait()
+	time.Sleep(50 * time.Millisecond)
+	synctest.Wait()
+	return true
+}
 
 func TestC18(t *testing.T) {
 	r := mon.Open(t, "C18")
@@ -69,6 +109,15 @@ func TestC18(t *testing.T) {
 	for _, chunk := range []uint64{2, 3, 8} {
 		mon.Emit(r, "range", c18P{From: 5, Len: int(2 * chunk), Chunk: chunk, Peers: []c18Peer{{Fault: "prefix-once", Kick: 3}, {DelayMs: 200}, {DelayMs: 5}}}, "range")
 		mon.Emit(r, "range", c18P{From: 5, Len: int(2 * chunk), Chunk: chunk, Peers: []c18Peer{{Real: true, Avail: 5 + int(chunk) - 1 + 1}, {Fault: "prefix-once", Kick: 4, DelayMs: 3}, {DelayMs: 300}, {DelayMs: 8}}}, "range")
+	}
+	// components that were stopped and started again keep working
+	for _, rs := range []string{"client", "servers", "both"} {
+		for _, chunk := range []uint64{2, 8} {
+			mon.Emit(r, "range", c18P{From: 6, Len: int(2*chunk) + 1, Chunk: chunk, Restart: rs, Peers: []c18Peer{{Real: true}, {Real: true, Avail: 10}}}, "range")
+			mon.Emit(r, "range", c18P{From: 6, Len: int(chunk), Chunk: chunk, Restart: rs, Peers: []c18Peer{{Real: true}, {DelayMs: 40}}}, "range")
+		}
+		mon.Emit(r, "single", c18P{From: 30, Restart: rs, Peers: []c18Peer{{Real: true}, {Real: true, Avail: 120}}}, "single")
+		mon.Emit(r, "single", c18P{From: 30, Restart: rs, Peers: []c18Peer{{Real: true}}}, "single")
 	}
 	// a tracked peer is already offline when the session is created (every peer is popped: chunks >= peers)
 	for _, chunk := range []uint64{1, 2, 4} {
@@ -131,6 +180,7 @@ func buildHonestWorld(c *mon.Case, p c18P, mainPhase *atomic.Bool) (*simnet.Worl
 	}
 	var envs []*storeEnv
 	var stops []func()
+	c18Servers = nil
 	peers := make([]*simnet.Peer, len(p.Peers))
 	for i, pe := range p.Peers {
 		avail := pe.Avail
@@ -142,6 +192,7 @@ func buildHonestWorld(c *mon.Case, p c18P, mainPhase *atomic.Bool) (*simnet.Worl
 			envs = append(envs, se)
 			srv := newServer(c, w, i+1, se.st, p2p.WithRequestTimeout[p2p.ServerParameters](time.Second), p2p.WithReadDeadline[p2p.ServerParameters](time.Second), p2p.WithWriteDeadline[p2p.ServerParameters](time.Second))
 			stops = append(stops, func() { _ = srv.Stop(context.Background()); se.stop() })
+			c18Servers = append(c18Servers, srv)
 			continue
 		}
 		b := behaviour{Kind: bHonest, DelayMs: pe.DelayMs, Avail: avail}
@@ -202,6 +253,9 @@ func c18Run(c *mon.Case, p c18P) {
 		time.Sleep(50 * time.Millisecond)
 		synctest.Wait()
 
+		if p.Restart != "" && !c18Restart(c, p, ex) {
+			return
+		}
 		if p.Warm > 0 {
 			wctx, wcancel := context.WithTimeout(context.Background(), 2*time.Minute)
 			wout, werr := ex.GetRangeByHeight(wctx, chain.At(1), 2+uint64(p.Warm)*p.Chunk)
@@ -250,6 +304,9 @@ func c18Run(c *mon.Case, p c18P) {
 		if p.PreKick > 0 {
 			ks = append(ks, "prekick")
 		}
+		if p.Restart != "" {
+			ks = append(ks, "restarted-"+p.Restart)
+		}
 		outcome := "ok"
 		if err != nil {
 			outcome = "error"
@@ -293,10 +350,13 @@ func c18Single(c *mon.Case, p c18P) {
 		}()
 		synctest.Wait()
 		time.Sleep(50 * time.Millisecond)
+		if p.Restart != "" && !c18Restart(c, p, ex) {
+			return
+		}
 		ctx, cancel := context.WithTimeout(context.Background(), time.Minute)
 		defer cancel()
 		c.Count("single_requests", 3)
-		c.Class("single peers=%d", len(p.Peers))
+		c.Class("single peers=%d restart=%s", len(p.Peers), p.Restart)
 		h := p.From
 		if p.From > envs[0].head {
 			h = envs[0].head
